@@ -42,6 +42,12 @@ def run(ctx):
             pool = [round(rng.uniform(0, 10), 1) for _ in range(rng.randint(1, 8))]
             samples = [rng.choice(pool) if rng.random() < 0.6 else rng.uniform(0, 10) for _ in range(n)]
             v = rng.choice([rng.choice(samples), min(samples) - 1, max(samples) + 1, rng.uniform(0, 10), 0.0])
+            # toy statistics that are not finite: +inf (e.g. q0 with an event in a zero-background bin) lies in every tail, a NaN (failed
+            # fit) in none — both stay in the denominator, the p-value is a fraction of *all* sampled statistics
+            nonfinite = rng.random() < 0.15
+            if nonfinite:
+                for _k in range(rng.randint(1, max(1, n // 3))): samples[rng.randrange(n)] = rng.choice([math.inf, math.inf, math.nan])
+                ctx.tally('nonfinite_samples', 'yes')
             arr = np.asarray(samples, dtype=np.float64)
             shp = rng.choice(['flat', 'col', 'row', 'grid'])
             if shp == 'col': arr = arr.reshape(n, 1)
@@ -56,7 +62,7 @@ def run(ctx):
             a, b = lean.ok({'op': 'empirical', 'samples': fl(samples), 'value': f2b(v)})
             ctx.count()
             inp = {'samples': samples, 'value': v, 'backend': bk}
-            if p != a / b:
+            if p != a / b and not any(x != x for x in samples):      # (a NaN sample has no order in the model's number type)
                 ctx.disagree('EmpiricalDistribution.pvalue', inp, [a, b], p)
             # ToyCalculator.pvalues on two empirical distributions: CL_s+b and CL_b are exactly the two tail fractions (0 when the observed
             # statistic lies above every toy), CL_s their ratio where CL_b > 0
